@@ -335,9 +335,9 @@ def _nona(df, value = np.nan, edge = None):
         elif edge == -1:
             return df[keep[0]:].copy()
     elif edge == 1: ## cut only latest values
-        return df_slice(df, ub = res.index[-1], openclose = '[]')
+        return df.loc[:res.index[-1]]
     elif edge == -1: ## cut only historic values
-        return df_slice(df, lb = res.index[0], openclose = '[]')
+        return df.loc[res.index[0]:]
     
 
 def nona(a, value = np.nan, edge = None):
